@@ -368,12 +368,27 @@ def F16():
         comm._thrd.stop_set()
 
 
+def F18():
+    """A user-defined CHAR type made of several items decodes on the client but cannot be encoded by the device side."""
+    from nxslib.proto.iparse import DsfmtItem, EParseDataType
+    ut = {20: DsfmtItem(1, "ccc", None, EParseDataType.CHAR, None, True)}
+    pr = ParseRecv(ParseRecvCb(*([lambda d: None] * 5)), SerialFrame, ut)
+    try:
+        r = pr.frame_stream_encode([DParseStreamData(0, 20, 3, 0, (b"a", b"b", b"c"), ())])
+    except Exception as e:  # noqa: BLE001
+        return ("user CHAR type 'ccc': frame_stream_encode of the sample (b'a', b'b', b'c') that "
+                "frame_stream_decode returns raises %s" % type(e).__name__)
+    if rc.accepts(r) != (1, bytes([0, 0]) + b"abc"):
+        return "user CHAR type 'ccc' encodes to %s" % r.hex()
+    return None
+
+
 ALL = {
     "F1": ("C02", F1), "F2": ("C03", F2), "F3": ("C10", F3), "F4": ("C10", F4),
     "F5": ("C10", F5), "F6": ("C04", F6), "F7": ("C04", F7), "F8": ("C05", F8),
     "F9": ("C05", F9), "F10": ("C06", F10), "F11": ("C06", F11),
     "F12": ("C08", F12), "F13": ("C15", F13), "F14": ("C15", F14),
-    "F15": ("C16", F15), "F16": ("C11", F16), "F17": ("C16", F17),
+    "F15": ("C16", F15), "F16": ("C11", F16), "F17": ("C16", F17), "F18": ("C15", F18),
 }
 
 if __name__ == "__main__":
